@@ -26,6 +26,8 @@ package node
 //   $dos = successful FSMInstance.Do calls so far, $savedAtDo = value of $dos when the round was last saved
 //@ ghost var $dos int
 //@ ghost var $savedAtDo int
+//   $restarts = successful automatic restarts of a cancelled signing batch so far
+//@ ghost var $restarts int
 //@ ghost var $vSender string
 //@ ghost var $vData bytesvalue
 //@ ghost var $vSig bytesvalue
@@ -123,7 +125,7 @@ package node
 //@   prologue $mayWrite = (message.Event == "reinit_dkg")
 //@   prologue $initEvent = false
 //@   modifies *
-//@   modifies $vSender, $vData, $vSig, $vRound, $fx, $sends, $lastSent, $stored, $pend, $retired, $bufc, $bufWrites, $dos, $savedAtDo
+//@   modifies $vSender, $vData, $vSig, $vRound, $fx, $sends, $lastSent, $stored, $pend, $retired, $bufc, $bufWrites, $dos, $savedAtDo, $restarts
 //@   epilogue $handledNext = message.Offset + 1
 //@   ensures unchanged("BaseNodeService.userName", "BaseNodeService.state", "BaseNodeService.storage", "BaseNodeService.ctx")
 //@   ensures[C09.skip.keep] s.SkipCommKeysVerification == old(s.SkipCommKeysVerification)
@@ -168,8 +170,15 @@ package node
 //@   assumed
 //@   modifies *
 //@   epilogue $dos = ite(result2 == nil, old($dos) + 1, old($dos))
+//@   epilogue $restarts = ite(result2 == nil && event == "event_signing_restart", old($restarts) + 1, old($restarts))
+// (by the signing machine's table, checked below by running its constructor: the restart event leads to the idle
+// state from each of the three states it is accepted in)
+//@   ensures result2 == nil && event == "event_signing_restart" ==> i.dump != nil && i.dump.State == "stage_signing_idle"
 //@   ensures result2 == nil ==> result0 != nil
 //@   ensures unchanged("BaseNodeService.SkipCommKeysVerification", "BaseNodeService.userName", "BaseNodeService.state", "BaseNodeService.storage", "BaseNodeService.ctx", "[]storage.Message", "types.ReDKG.Messages")
+//@ tables[C06.restart.edge] edge state_signing_partial_signs_collected event_signing_restart stage_signing_idle
+//@ tables[C06.restart.edge] edge state_signing_partial_signs_await_cancelled_by_timeout event_signing_restart stage_signing_idle
+//@ tables[C06.restart.edge] edge state_signing_partial_signs_await_cancelled_by_error event_signing_restart stage_signing_idle
 //@ func reconstructThresholdSignature
 //@   assumed
 //@   pure
@@ -180,12 +189,17 @@ package node
 //@   requires s != nil
 //@   prologue $initEvent = (message.Event == "event_sig_proposal_init")
 //@   modifies *
-//@   modifies $mayWrite, $vSender, $vData, $vSig, $vRound, $fx, $sends, $lastSent, $dos, $savedAtDo
+//@   modifies $mayWrite, $vSender, $vData, $vSig, $vRound, $fx, $sends, $lastSent, $dos, $savedAtDo, $restarts
 // the participant a request speaks for must be the participant registered under the sender's name (third Do: the event itself)
 // the automatic restart of a cancelled batch is saved before the event itself is applied, so that it survives
 // even if the event is then rejected
 //@   assert@call Do#3[C06.restart.persisted,C07.restart.persisted] $savedAtDo == $dos || $dos == old($dos)
 //@   assert@call Do#3[C10.sender] requestSpeaksFor(loc(fsmReq), loc(fsmInstance), message.SenderAddr)
+// a message that ends in an error has not moved the stored round: the only save that may precede the error is the one
+// of the automatic restart, taken before the message's own event was applied (rejected input is a no-op, C18)
+//@   ensures[C18.node.noop] result1 != nil ==> $savedAtDo == old($savedAtDo) || $savedAtDo <= old($dos) + ($restarts - old($restarts))
+// the message that wakes up a cancelled batch is not swallowed: after the automatic restart its own event is applied, too
+//@   ensures[C06.restart.continue,C07.restart.continue] result1 == nil && message.Event != "event_signing_restart" && $restarts > old($restarts) ==> $dos >= old($dos) + 2
 //@   ensures[C09.authorised] result1 == nil ==> $mayWrite || $initEvent
 //@   ensures[C09.bound] result1 == nil && !$initEvent && !old($mayWrite) ==> $vSender == message.SenderAddr && $vData == old(content(message.Data)) && $vSig == old(content(message.Signature)) && $vRound == message.DkgRoundID
 //@   ensures[C09.reject] !$mayWrite && !$initEvent ==> $fx == old($fx)
@@ -211,7 +225,7 @@ package node
 //@   requires s != nil
 //@   requires[C09.guard] $mayWrite
 //@   modifies *
-//@   modifies $mayWrite, $initEvent, $vSender, $vData, $vSig, $vRound, $fx, $sends, $lastSent, $bufc, $bufWrites, $dos, $savedAtDo
+//@   modifies $mayWrite, $initEvent, $vSender, $vData, $vSig, $vRound, $fx, $sends, $lastSent, $bufc, $bufWrites, $dos, $savedAtDo, $restarts
 //@   loop 0 invariant $mayWrite && s.SkipCommKeysVerification
 //@   loop 0 invariant req.Messages == $range
 //@   loop 0 invariant[C20.replay.stop] forall j int :: 0 <= j && j <= $i ==> req.Messages[j].Event != "event_signing_start"
@@ -249,7 +263,7 @@ package node
 //@   requires s != nil && operation != nil
 //@   prologue $mayWrite = true
 //@   modifies *
-//@   modifies $initEvent, $fx, $sends, $lastSent, $stored, $pend, $retired, $dos, $savedAtDo
+//@   modifies $initEvent, $fx, $sends, $lastSent, $stored, $pend, $retired, $dos, $savedAtDo, $restarts
 //@   loop 0 invariant $sends == old($sends) && unchanged("BaseNodeService.userName", "types.Operation.ID", "types.Operation.Type", "types.Operation.Payload", "types.Operation.ResultMsgs", "types.Operation.Event", "[]byte")
 //@   loop 0 invariant $stored != nil && $stored != operation && ($stored.ID in $pend)
 //@   loop 0 invariant forall j int :: 0 <= j && j <= $i ==> operation.ResultMsgs[j].SenderAddr == s.userName && content(operation.ResultMsgs[j].Signature) == edSign(keyOf(s.userName), content(operation.ResultMsgs[j].Data))
@@ -281,7 +295,7 @@ package node
 //@   nosafety
 //@   requires s != nil
 //@   modifies *
-//@   modifies $mayWrite, $initEvent, $vSender, $vData, $vSig, $vRound, $fx, $sends, $lastSent, $stored, $pend, $retired, $handledNext, $bufc, $bufWrites, $dos, $savedAtDo, $offsetSaves, $fetched, $savesAtFetch
+//@   modifies $mayWrite, $initEvent, $vSender, $vData, $vSig, $vRound, $fx, $sends, $lastSent, $stored, $pend, $retired, $handledNext, $bufc, $bufWrites, $dos, $savedAtDo, $restarts, $offsetSaves, $fetched, $savesAtFetch
 //@   prologue $fetched = 0
 //@   prologue $savesAtFetch = $offsetSaves
 //@   loop 0 invariant[C13.offset.every] $offsetSaves == $savesAtFetch + $fetched
@@ -289,6 +303,21 @@ package node
 //@   assert@call SaveOffset[C13.offset] arg0 == message.Offset + 1 && ($handledNext == arg0 || !(message.RecipientAddr == "" || message.RecipientAddr == s.userName))
 
 // reconstruction works on the same common expansion and hands each message's payload to the BLS library unchanged (C03)
+// whatever partial signatures and message identifiers a (verified) participant sent, reconstruction answers with
+// signatures or an error: an identifier that is not in the batch must not fault
+//@ func reconstructThresholdSignature behavior c18
+//@   safety C18
+//@   safetykinds nil dereference, assignment to entry in nil map, index out of range
+// (a round that collects partial signatures went through key generation: its key-generation payload exists)
+//@ spec func wfSigningRound(i *state_machines.FSMInstance) bool = i != nil && i.dump != nil && i.dump.Payload != nil && i.dump.Payload.DKGProposalPayload != nil
+// (the response handed in is the one the signing machine built: a list of entries, none nil)
+//@   requires wfSigningRound(signingFSM) && (forall j int :: 0 <= j && j < len(payload.Participants) ==> payload.Participants[j] != nil)
+//@   modifies *
+//@   modifies $suites, $suiteSeed
+//@   loop 0 invariant wfSigningRound(signingFSM) && batchPartialSignatures != nil && (forall j int :: 0 <= j && j < len(payload.Participants) ==> payload.Participants[j] != nil)
+//@   loop 1 invariant wfSigningRound(signingFSM) && batchPartialSignatures != nil && (forall j int :: 0 <= j && j < len(payload.Participants) ==> payload.Participants[j] != nil)
+//@   loop 2 invariant wfSigningRound(signingFSM) && messages != nil
+//@   loop 3 invariant wfSigningRound(signingFSM) && messages != nil
 //@ func reconstructThresholdSignature behavior c03
 //@   nosafety
 //@   requires signingFSM != nil
@@ -309,7 +338,7 @@ package node
 //@   nosafety
 //@   requires s != nil && dto != nil
 //@   modifies *
-//@   modifies $mayWrite, $initEvent, $fx, $sends, $lastSent, $stored, $pend, $retired, $dos, $savedAtDo
+//@   modifies $mayWrite, $initEvent, $fx, $sends, $lastSent, $stored, $pend, $retired, $dos, $savedAtDo, $restarts
 //@   assert@call executeOperation[C15.dto] operation.ID == dto.ID && string(operation.Type) == dto.Type && operation.Payload == dto.Payload && operation.ResultMsgs == dto.ResultMsgs && operation.DKGIdentifier == dto.DkgID && operation.To == dto.To && operation.Event == dto.Event && operation.ExtraData == dto.ExtraData
 
 // approving an invitation answers only an operation of the invitation type, in the name of the participant whose
@@ -318,7 +347,7 @@ package node
 //@   nosafety
 //@   requires s != nil && dto != nil
 //@   modifies *
-//@   modifies $mayWrite, $initEvent, $fx, $sends, $lastSent, $stored, $pend, $retired, $dos, $savedAtDo, $bufc
+//@   modifies $mayWrite, $initEvent, $fx, $sends, $lastSent, $stored, $pend, $retired, $dos, $savedAtDo, $restarts, $bufc
 //@   assert@call executeOperation[C15.approve] string(operation.Type) == "state_sig_proposal_await_participants_confirmations" && loc(pid) != -1 && operation.Event == "event_sig_proposal_confirm_by_participant" && len(operation.ResultMsgs) >= 1
 
 // ---- the remaining entry points of the local API: whatever the (bound and validated) request body holds, the node
